@@ -74,11 +74,14 @@ def _regions(chrpre, par):
     return regs
 
 
-def _table_for(cfg):
+def _table_for(cfg, drop=None):
+    """drop: None, "X" or "Y" -- leave that chromosome out of the table (a panel without chrX rows must still treat chrY as chrY)."""
     ploidy, purity, male_ref, female, chrpre, par = cfg
     xl, yl = chrpre + "X", chrpre + "Y"
     rows, truth = [], []
     for chrom, s, e in _regions(chrpre, par):
+        if drop and chrom == chrpre + drop:
+            continue
         cls = CN.region_class(chrom, s, e, par, xl, yl)
         if purity < 1.0:
             r = CN.ref_copies(cls, ploidy, male_ref)
@@ -105,8 +108,9 @@ def _table_for(cfg):
 def case_config(run, i):
     _n_cfg(run.tier)
     ploidy, purity, male_ref, female, chrpre, par = _CFG[run.tier][i]
-    cna, rows, truth = _table_for(_CFG[run.tier][i])
-    run.begin_case("config", i, cls=f"cfg:ploidy{ploidy}:{'purity' if purity < 1 else 'pure'}:{'par' if par else 'nopar'}",
+    drop = [None, None, None, "X", "Y"][i % 5]
+    cna, rows, truth = _table_for(_CFG[run.tier][i], drop)
+    run.begin_case("config", i, cls=f"cfg:ploidy{ploidy}:{'purity' if purity < 1 else 'pure'}:{'par' if par else 'nopar'}" + (f":no{drop}" if drop else ""),
                    truth_n=truth, config=dict(ploidy=ploidy, purity=purity, male_ref=male_ref, female=female, naming=chrpre or "plain", par=par))
     import cnvlib.call as C
     try:
@@ -180,7 +184,7 @@ def case_cli(run, i):
     with run.monitor_scope():
         tabio.write(cna, inf)
     center_at = [0.25, -0.5][(i // 4) % 2] if (purity >= 1.0 and i % 4 == 3) else None     # with a purity the model's log2 must reach do_call unshifted
-    argv = ["call", inf, "-m", "clonal", "--ploidy", str(ploidy), "-o", outf, "-x", "female" if female else "male"]
+    argv = ["call", inf, "-m", "clonal", "--ploidy", str(ploidy), "-o", outf, "-x", cli_plumb.sex_arg(female, i)]
     if purity < 1.0 or i % 3 == 0:
         argv += ["--purity", repr(purity)]
     if male_ref:
@@ -200,5 +204,5 @@ def case_cli(run, i):
 
 
 WORKLOADS = {"config": (_n_cfg, case_config), "random": (_n_random, case_random), "cli": (_n_cli, case_cli)}
-QUOTAS = {"quick": {"cli.call[plumbing]|held": 25, "class:cli-call:clonal:center-at": 4, "call.do_call|held": 800, "class:cfg:ploidy2:purity:par": 5, "class:cfg:ploidy1:purity:nopar": 20},
+QUOTAS = {"quick": {"cli.call[plumbing]|held": 25, "class:cli-call:clonal:center-at": 4, "call.do_call|held": 800, "class:cfg:ploidy2:purity:par": 2, "class:cfg:ploidy2:purity:nopar:noX": 1, "class:cfg:ploidy1:purity:nopar": 10},
           "thorough": {"call.do_call|held": 5000, "cli.call[plumbing]|held": 250}}
